@@ -1,7 +1,282 @@
-"""Thorough tier additions (resolver cross-check, second normaliser, self-test)."""
+"""Thorough tier: (i) class-table cross-check against interpreter reflection, (ii) every symbolic identity
+re-decided by a second normaliser (sympy), (iii) the checker self-test: seeded defects must be reported, behaviour-
+preserving variants and the current tree must stay silent, the pre-fix revision must show the recorded findings.
+
+None of this is the deciding step of a property: a failure here means the *analyser* is broken (exit 2)."""
 
 from __future__ import annotations
 
+import glob
+import json
+import os
+import subprocess
+import sys
+import time
 
-def run(pid, world, ck):
-    return {}, []
+from . import poly
+from .benign import VARIANTS
+from .classes import ClassTable
+from .history import world_at, world_with_patch
+from .loader import AnalysisError, World
+from .report import VERIF
+
+E6_PROPS = {'C01', 'C03', 'C06', 'C08', 'C15', 'C16'}
+REFLECT = r'''
+import dataclasses, inspect, json, sys
+import lineax as lx
+import furax, furax.operators, furax.projections, furax.instruments.sat, furax.toast.obs_matrix  # noqa
+from furax.operators import toeplitz, hwp, polarizers, qu_rotations  # noqa
+from furax._base import axes, blocks, dense, diagonal, indices, linear, rules, core  # noqa
+out = {'classes': {}, 'rules': []}
+def subclasses(c):
+    for s in c.__subclasses__():
+        yield s
+        yield from subclasses(s)
+seen = set()
+for c in subclasses(core.AbstractLinearOperator):
+    if c in seen or not c.__module__.startswith('furax'):
+        continue
+    seen.add(c)
+    entry = {'mro': [k.__module__ + '.' + k.__qualname__ for k in c.__mro__ if k.__module__.startswith('furax')], 'attrs': {}, 'tags': {}, 'fields': {}}
+    for name in ('mv', 'transpose', 'inverse', 'out_structure', 'in_structure', 'as_matrix', 'reduce', '__matmul__', '__init__'):
+        try:
+            v = inspect.getattr_static(c, name)
+        except AttributeError:
+            continue
+        f = v.fget if isinstance(v, property) else getattr(v, '__func__', v)
+        code = getattr(f, '__code__', None)
+        if code is not None and 'furax' in code.co_filename:
+            entry['attrs'][name] = [code.co_filename.split('/src/')[-1], code.co_firstlineno, code.co_name]
+    for tag in ('is_diagonal', 'is_symmetric', 'is_lower_triangular', 'is_upper_triangular', 'is_tridiagonal', 'is_positive_semidefinite', 'is_negative_semidefinite'):
+        try:
+            entry['tags'][tag] = bool(getattr(lx, tag).dispatch(c)(None))
+        except Exception as exc:  # noqa
+            entry['tags'][tag] = None
+    if dataclasses.is_dataclass(c):
+        for f in dataclasses.fields(c):
+            entry['fields'][f.name] = bool(f.metadata.get('static', False))
+    out['classes'][c.__module__ + '.' + c.__qualname__] = entry
+out['rules'] = [type(r).__module__ + '.' + type(r).__qualname__ for r in rules.BINARY_RULE_REGISTRY]
+json.dump(out, sys.stdout)
+'''
+
+
+def _reflect(root: str) -> dict:
+    env = dict(os.environ, PYTHONPATH=os.path.join(root, 'src'), JAX_PLATFORMS='cpu', PYTHONDONTWRITEBYTECODE='1')
+    r = subprocess.run(['/venv/bin/python', '-c', REFLECT], capture_output=True, text=True, env=env, cwd='/', timeout=300)
+    if r.returncode != 0:
+        raise AnalysisError(f'interpreter reflection failed: {r.stderr.strip()[-300:]}')
+    start = r.stdout.index('{')
+    return json.loads(r.stdout[start:])
+
+
+def crosscheck_class_table(world: World) -> tuple[dict, list[str]]:
+    table = ClassTable(world)
+    refl = _reflect(world.root)
+    problems: list[str] = []
+    checked = 0
+    for cls in table.operators():
+        r = refl['classes'].get(cls.qual)
+        if r is None:
+            problems.append(f'{cls.qual}: not found by the interpreter')
+            continue
+        mro = [k.qual for k in cls.mro]
+        if mro != r['mro']:
+            problems.append(f'{cls.qual}: MRO {mro} vs interpreter {r["mro"]}')
+        for name, (fname, lineno, coname) in r['attrs'].items():
+            res = table.resolve(cls, name)
+            checked += 1
+            if res is None:
+                problems.append(f'{cls.qual}.{name}: unresolved, interpreter has {fname}:{lineno}')
+                continue
+            node = res.node
+            lines = {getattr(node, 'lineno', -1)} | {getattr(d, 'lineno', -1) for d in getattr(node, 'decorator_list', [])}
+            from .loader import module_of
+
+            if module_of(node).relpath.split('src/')[-1] != fname or lineno not in lines:
+                problems.append(f'{cls.qual}.{name}: resolver says {module_of(node).relpath}:{sorted(lines)} ({res.provenance}), interpreter says {fname}:{lineno} ({coname})')
+        for tag, val in r['tags'].items():
+            mine = table.tag(cls, tag)[0]
+            checked += 1
+            if val is not None and (mine if mine is not None else False) != val:
+                problems.append(f'{cls.qual} tag {tag}: resolver {mine}, interpreter {val}')
+        mine_fields = {f.name: f.static for f in table.fields(cls)}
+        if r['fields'] and mine_fields != r['fields']:
+            problems.append(f'{cls.qual}: fields {mine_fields} vs interpreter {r["fields"]}')
+    mine_rules = {c.qual for c in table.rules()}
+    if mine_rules != set(refl['rules']):
+        problems.append(f'rule registry: resolver {sorted(mine_rules)} vs interpreter {sorted(refl["rules"])}')
+    if refl['rules'] and not refl['rules'][0].endswith('InverseBinaryRule'):
+        problems.append(f'registry order: first rule is {refl["rules"][0]}')
+    return {'resolver_crosscheck': {'classes': len(refl['classes']), 'attributes_and_tags_compared': checked, 'rules': len(refl['rules']), 'disagreements': len(problems)}}, problems
+
+
+class SympyCross:
+    """Second normaliser: every Poly zero-test made by the checks is re-decided with sympy."""
+
+    def __init__(self) -> None:
+        for w in sorted(glob.glob('/opt/veriftools/wheels/mpmath-*.whl')) + sorted(glob.glob('/opt/veriftools/wheels/sympy-*.whl')):
+            if w not in sys.path:
+                sys.path.insert(0, w)
+        import sympy
+
+        self.sp = sympy
+        self.n = 0
+        self.disagreements: list[str] = []
+        self.cache: dict = {}
+
+    def to_sympy(self, p: poly.Poly):
+        sp = self.sp
+        expr = sp.Integer(0)
+        for mono, c in p.t.items():
+            term = sp.Rational(c.numerator, c.denominator)
+            for atom, k in mono:
+                if atom[0] == 'cos':
+                    a = sp.cos(sp.Symbol(atom[1], real=True))
+                elif atom[0] == 'sin':
+                    a = sp.sin(sp.Symbol(atom[1], real=True))
+                else:
+                    a = sp.Symbol(f'{atom[0]}_{atom[1]}', real=True)
+                term = term * a ** k
+            expr += term
+        return expr
+
+    def is_zero(self, p: poly.Poly, mine: bool) -> None:
+        key = tuple(sorted(p.t.items(), key=repr))
+        if key in self.cache:
+            return
+        self.n += 1
+        theirs = self.sp.simplify(self.sp.expand_trig(self.to_sympy(p))) == 0
+        self.cache[key] = theirs
+        if theirs != mine:
+            self.disagreements.append(f'{p}: normal form says {"zero" if mine else "non-zero"}, sympy says {"zero" if theirs else "non-zero"}')
+
+
+def second_normaliser(pid: str, world: World) -> tuple[dict, list[str]]:
+    from .run import run_property
+
+    cross = SympyCross()
+    old = poly.Poly.is_zero
+
+    def patched(self):  # type: ignore[no-untyped-def]
+        res = old(self)
+        cross.is_zero(self, res)
+        return res
+
+    old_cs = poly.cos_sin
+    old_normal = poly.Poly.normal
+    seen_cs: set = set()
+    seen_nf: set = set()
+
+    def cs_checked(form):  # type: ignore[no-untyped-def]
+        c, s = old_cs(form)
+        key = tuple(sorted(form.items()))
+        if key not in seen_cs:
+            seen_cs.add(key)
+            sp = cross.sp
+            arg = sum(n * sp.Symbol(a, real=True) for a, n in form.items())
+            for mine, ref, what in ((c, sp.cos(arg), 'cos'), (s, sp.sin(arg), 'sin')):
+                cross.n += 1
+                if sp.simplify(sp.expand_trig(cross.to_sympy(mine) - ref)) != 0:
+                    cross.disagreements.append(f'{what}({arg}) expanded to {mine}')
+        return c, s
+
+    def normal_checked(self):  # type: ignore[no-untyped-def]
+        res = old_normal(self)
+        key = tuple(sorted(self.t.items(), key=repr))
+        if key not in seen_nf and any(a[0] == 'sin' and k >= 2 for m in self.t for a, k in m):
+            seen_nf.add(key)
+            cross.n += 1
+            if cross.sp.simplify(cross.to_sympy(self) - cross.to_sympy(res)) != 0:
+                cross.disagreements.append(f'normal form of {self} is {res}')
+        return res
+
+    poly.Poly.is_zero = patched  # type: ignore[method-assign]
+    poly.cos_sin = cs_checked
+    poly.Poly.normal = normal_checked  # type: ignore[method-assign]
+    try:
+        run_property(pid, world)
+    finally:
+        poly.Poly.is_zero = old  # type: ignore[method-assign]
+        poly.cos_sin = old_cs
+        poly.Poly.normal = old_normal  # type: ignore[method-assign]
+    return {'second_normaliser': {'engine': f'sympy {cross.sp.__version__} (expand_trig + simplify)', 'zero_tests_rechecked': cross.n, 'disagreements': len(cross.disagreements)}}, cross.disagreements[:5]
+
+
+def self_test(pid: str, world: World) -> tuple[dict, list[str]]:
+    from .run import run_property
+
+    failures: list[str] = []
+    base = run_property(pid, world)
+    base_v = {o.key for o in base.violations()}
+    base_i = {o.key for o in base.incompletes()}
+    # (a) behaviour-preserving variants must be silent
+    nben = 0
+    for name, make in VARIANTS.items():
+        v = make(world)
+        for m in v.modules.values():
+            compile(m.source, m.relpath, 'exec')
+        ck = run_property(pid, v)
+        nben += 1
+        new = sorted({o.key for o in ck.violations()} - base_v) + sorted({o.key for o in ck.incompletes()} - base_i) + ck.floor_failures()
+        if new:
+            failures.append(f'benign variant {name}: the check is not silent: {new[:3]}')
+    # (b) seeded defects recorded for this property must be reported
+    nseed = ncaught = 0
+    for meta_path in sorted(glob.glob(os.path.join(VERIF, 'seeded', '*', 'meta.json'))):
+        with open(meta_path, encoding='utf-8') as f:
+            meta = json.load(f)
+        if pid not in meta.get('caught_by', []):
+            continue
+        nseed += 1
+        try:
+            v = world_with_patch(world.root, os.path.join(os.path.dirname(meta_path), 'patch.diff'))
+        except AnalysisError as exc:
+            failures.append(f'seeded {meta["id"]}: {exc}')
+            continue
+        ck = run_property(pid, v)
+        new = {o.key for o in ck.violations()} - base_v
+        want = meta.get('expected_rules', {}).get(pid, [])
+        if new and (not want or any(any(k.startswith(w) for w in want) for k in new)):
+            ncaught += 1
+        else:
+            failures.append(f'seeded {meta["id"]}: expected a violation of {want or pid}, got {sorted(new)[:3]}')
+    # (c) the pre-fix revision shows the recorded findings of this property
+    hist = {}
+    expected_file = os.path.join(VERIF, 'selftest', 'prefix_findings.json')
+    if os.path.exists(expected_file):
+        with open(expected_file, encoding='utf-8') as f:
+            exp = json.load(f)
+        want = exp.get('findings', {}).get(pid, [])
+        if want:
+            try:
+                old = world_at(world.root, exp['revision'])
+                ck = run_property(pid, old)
+                got = {o.key for o in ck.violations()}
+                missing = [w for w in want if w not in got]
+                hist = {'revision': exp['revision'], 'expected': len(want), 'reported': len(want) - len(missing)}
+                if missing:
+                    failures.append(f'pre-fix revision {exp["revision"]}: recorded findings not reported: {missing[:3]}')
+            except (AnalysisError, subprocess.CalledProcessError) as exc:
+                hist = {'revision': exp['revision'], 'skipped': str(exc)[:80]}
+    return {'self_test': {'benign_variants_silent': nben - sum(1 for f in failures if f.startswith('benign')), 'benign_variants': nben, 'seeded_defects': nseed,
+                          'seeded_defects_reported': ncaught, 'historical': hist}}, failures
+
+
+def run(pid: str, world: World, ck) -> tuple[dict, list[str]]:
+    extra: dict = {}
+    failures: list[str] = []
+    t0 = time.time()
+    if not world.overrides:
+        e, f = crosscheck_class_table(world)
+        extra.update(e)
+        failures += [f'resolver disagrees with interpreter: {x}' for x in f[:5]]
+    if pid in E6_PROPS:
+        e, f = second_normaliser(pid, world)
+        extra.update(e)
+        failures += [f'second normaliser disagrees: {x}' for x in f]
+    e, f = self_test(pid, world)
+    extra.update(e)
+    failures += f
+    extra['thorough_wall_s'] = round(time.time() - t0, 2)
+    return extra, failures
